@@ -64,6 +64,8 @@ enum Op {
     IntoIterMut,
     Clone,
     Reserve(usize),
+    /// `clone_from` a source matrix with the given number of rows (the destination's buffer may be reused)
+    CloneFrom(usize),
 }
 
 fn ops(quick: bool) -> Vec<Op> {
@@ -86,6 +88,8 @@ fn ops(quick: bool) -> Vec<Op> {
         Op::IterMut,
         Op::Clone,
         Op::Reserve(16),
+        Op::CloneFrom(1),
+        Op::CloneFrom(3),
     ];
     if !quick {
         v.extend([
@@ -95,6 +99,7 @@ fn ops(quick: bool) -> Vec<Op> {
             Op::IntoIterMut,
             Op::Reserve(0),
             Op::New(1),
+            Op::CloneFrom(0),
         ]);
     }
     v
@@ -206,6 +211,14 @@ impl<T: Elem, C: ArrayLength + PartialEq> Sys<T, C> {
             }
             Op::Reserve(n) => {
                 self.real.reserve(n);
+            }
+            Op::CloneFrom(r) => {
+                let rows: Vec<Vec<T>> = (0..r)
+                    .map(|i| (0..c).map(|j| T::from_u8(pat(i, j, 7))).collect())
+                    .collect();
+                let src = DenseMatrix::<T, C>::from_rows(rows.iter().map(|x| x.as_slice()).collect::<Vec<_>>());
+                self.real.clone_from(&src);
+                self.model = rows;
             }
         }
     }
@@ -492,7 +505,7 @@ pub fn run(ctx: &mut Ctx, rep: &mut Report) {
         "histories",
         &format!(
             "explicit-state BFS over the real DenseMatrix<T,C> for T in {{u8,u32,f32,i64}} x C in {{1,5,7,16,21,32,43}}; \
-             {} operations (new/with_capacity/from_rows/uninitialized+write/resize/fill/IndexMut<usize>/IndexMut<MatrixCoordinates>/iter_mut/clone/reserve), \
+             {} operations (new/with_capacity/from_rows/uninitialized+write/resize/fill/IndexMut<usize>/IndexMut<MatrixCoordinates>/iter_mut/clone/clone_from/reserve), \
              all histories to depth {} with canonical-state de-duplication (rows, capacity<=24, logical cells); \
              a state is non-trivial when distinct by that key; every transition re-executes its whole history on a fresh matrix and is checked against the Vec<Vec<T>> model",
             ops(ctx.quick()).len(),
